@@ -114,6 +114,15 @@ CLAIMS = {
          "of a JSON-native value with text-distinct keys yields a value equal to the original. Tied to json.rs by the C02/C09 boundary value set (alone and "
          "nested), colliding-key maps and a recursive value generator, the model being told the hash maps' iteration order; totality and import/export laws "
          "are also evaluated on the implementation."),
+ "C03": ("Theorem C03_refines (induction on the surface term, using the macro-expansion theorems of C10, the operator dispatch lemmas of C06 and the call "
+         "machinery lemmas of C20): for every term well typed under Spec.type_of, every environment of that typing and every context holding the standard "
+         "functions, executing the AST the parser produces for the term yields exactly the outcome - value or error class - of the reference semantics Spec.sem "
+         "(a direct structural evaluator: left-to-right operands, first error aborts, short-circuit on booleans, macros as early-exit folds, calls apply the "
+         "function to the argument values, null for an absent index) and calls no host function; plus type preservation of the reference semantics and "
+         "freedom from crashes. The reference semantics share with the operational model only the value type and the leaf operations characterised under "
+         "C08/C09/C13/C14. Tied to the code by generating typed terms as trees: the source text runs on the real parser and interpreter, the tree on the "
+         "model, which re-compiles the source with its own parser model, requires the AST to be the lowering of the tree, type-checks it, and answers with "
+         "both the operational and the reference outcome; implementation, model and specification must coincide (debug and release in the thorough tier)."),
  "C05": ("PARTIAL. The model's evaluator is a function of (context, program) returning no context, so purity is checked on the implementation rather than "
          "proved of the model: histories (one context, up to 50 executions) and thread runs (2-16 threads sharing one program set and one root context by "
          "reference, each in its own inner scope) are answered execution by execution by the history-free model, and the harness additionally checks that every "
